@@ -98,8 +98,12 @@ impl TypeRegistry {
     pub(crate) fn resolve_string(&self, scope: &[ItemPath], name: &str) -> Option<Type> {
         // todo: take scope_modules and scope_types instead of scope so that we don't need
         // to do this partitioning
-        let (scope_types, scope_modules): (Vec<&ItemPath>, Vec<&ItemPath>) =
-            scope.iter().partition(|ip| self.types.contains_key(ip));
+        // The first entry of a scope is the path of the module itself: it is searched as a
+        // module even when a type of its parent module happens to have the same path.
+        let own_module = scope.first();
+        let (scope_types, scope_modules): (Vec<&ItemPath>, Vec<&ItemPath>) = scope
+            .iter()
+            .partition(|ip| Some(*ip) != own_module && self.types.contains_key(ip));
 
         // If we find the relevant type within our scope, take the last one
         scope_types
